@@ -164,6 +164,7 @@ func TestReplay(t *testing.T) {
 		"TestPGRewrite":    func(raw json.RawMessage) hx.Vs { return decodeCase(raw, func(c PGCase) hx.Vs { vs, _, _ := CheckPG(c); return vs }) },
 		"TestMySQLRelay":   func(raw json.RawMessage) hx.Vs { return decodeCase(raw, func(c MyCase) hx.Vs { vs, _, _ := CheckMy(c); return vs }) },
 		"TestMySQLRewrite": func(raw json.RawMessage) hx.Vs { return decodeCase(raw, func(c MyCase) hx.Vs { vs, _, _ := CheckMy(c); return vs }) },
+		"TestMySQLBackToBack": func(raw json.RawMessage) hx.Vs { return decodeCase(raw, CheckBackToBack) },
 	})
 }
 
@@ -184,6 +185,17 @@ func report(t hx.TB, test string, c any, vs hx.Vs) {
 		vs = keep
 	}
 	R.Report(t, test, c, vs)
+}
+
+func mustJSON(c any) string {
+	b, err := json.Marshal(c)
+	if err != nil {
+		return err.Error()
+	}
+	if len(b) > 4000 {
+		b = b[:4000]
+	}
+	return string(b)
 }
 
 var _ = bytes.Equal
